@@ -65,6 +65,9 @@ def single(S, N, kind, lbs, dbs, call_noise):
             sig = as_sym_arr(SH.get(lik.noise))  # (*lbs, 1)
         elif kind == "fixed_learn":
             sig = as_sym_arr(SH.get(lik.second_noise))
+        # reading the public noise property (twice) is an observation, not an update: the next call still adds R once
+        noise_read = [lik.noise, lik.noise][-1]
+        mc_again = lik(d, **kw).covariance_matrix
         # learned noise must be the documented transform of the raw parameter: softplus(raw) + 1e-4 (GreaterThan(1e-4))
     # documented R, per element
     R = np.empty(out_bs + (N,), dtype=object)
@@ -101,6 +104,13 @@ def single(S, N, kind, lbs, dbs, call_noise):
     for idx in np.ndindex(*Rm.shape):
         Rm[idx] = R[idx[:-2] + (idx[-1],)] if idx[-1] == idx[-2] else Sym.const(0.0)
     S.prove_eq(mc, Cb + Rm, "marginal.cov = C + R (added once)")
+    S.prove_eq(mc_again, Cb + Rm, "marginal.cov = C + R again after the noise property was read")
+    if kind != "gaussian":
+        stored = np.empty(tuple(noise_read.shape), dtype=object)
+        for idx in np.ndindex(*stored.shape):
+            lb = idx[:-1]
+            stored[idx] = Fs[idx] + (sig[lb + (0,)] if kind == "fixed_learn" else Sym.const(0.0))
+        S.prove_eq(noise_read, stored, "likelihood.noise = stored fixed noise [+ learned sigma^2], however often it is read")
     # expected_log_prob elementwise closed form
     ref_e = np.empty(out_bs + (N,), dtype=object)
     ref_l = np.empty(out_bs + (N,), dtype=object)
